@@ -980,6 +980,13 @@ def pset_method(ip, obj, name, args, kwargs):
         return None
     if name == "copy":
         return PSet(L)
+    if name == "pop" and not args:
+        # set.pop() removes an arbitrary element: only modelled for at most one element
+        if not L:
+            raise RaiseEx("KeyError", "pop from an empty set")
+        if len(L) == 1:
+            return L.pop()
+        raise Unsupported("set.pop() of a set with several elements (arbitrary choice)")
     if name in ("remove", "discard"):
         for i, e in enumerate(L):
             if vc.decide(ip.values_eq(args[0], e)):
